@@ -45,12 +45,12 @@ def valid(seq):
 DRAIN = ["poll"] * 4
 
 
-def exhaustive(n, depth, tag):
-    al = base_alphabet(n)
+def exhaustive(n, depth, tag, extra=()):
+    al = base_alphabet(n) + list(extra)
     i = 0
     for d in range(1, depth + 1):
         for seq in itertools.product(al, repeat=d):
-            if not valid(seq):
+            if not valid(seq) or (extra and not any(e in seq for e in extra)):
                 continue
             # symmetry: the first key mentioned is 1, the second new key is 2, ...
             order = []
@@ -107,6 +107,9 @@ def random_cases(rng, count, tag, maxpeers=5, length=(20, 60)):
                 seq.append(f"close {k}")
             elif r < 0.80:
                 seq.append(f"remove {k}")
+            elif r < 0.83:
+                # the executor's cooperative budget runs out: now, or inside stream k's next poll
+                seq.append(rng.choice(["exhaust", f"window {k} pre exhaust", f"window {k} post exhaust"]))
             else:
                 j = rng.randint(1, n)
                 env = rng.choice(["arrive", "arrive", "close", "insert", "remove"])
@@ -116,6 +119,23 @@ def random_cases(rng, count, tag, maxpeers=5, length=(20, 60)):
                     inserted.add(j)
                 seq.append(f"window {k} {rng.choice(['pre', 'post'])} {env} {j}")
         yield Case(f"{tag}#{i}", "fq", materialise(seq + ["poll"] * 8), [tag])
+
+
+def exhaust_cases(rng, count, tag):
+    """the executor's cooperative budget runs out while several peers have a backlog: every stream poll
+    returns Pending after waking itself — the call must return (not spin) and nothing may be lost"""
+    for i in range(count):
+        n = rng.randint(1, 5)
+        seq = [f"insert {k}" for k in range(1, n + 1)]
+        for k in range(1, n + 1):
+            seq += [f"arrive {k}"] * rng.randint(0, 4)
+        rng.shuffle(seq)
+        seq += ["poll"] * rng.randint(0, 3)
+        k = rng.randint(1, n)
+        seq.append(rng.choice(["exhaust", f"window {k} pre exhaust", f"window {k} post exhaust"]))
+        tail = ["poll"] * rng.randint(1, 4) + [f"arrive {rng.randint(1, n)}", "exhaust", "poll", f"arrive {rng.randint(1, n)}"]
+        rng.shuffle(tail)
+        yield Case(f"{tag}#{i}", "fq", materialise(seq + tail + ["poll"] * (6 * n + 8)), [tag])
 
 
 # --------------------------------------------------------------------------- oracles on a trace
@@ -130,7 +150,9 @@ def analyse(case, lines):
     events = []  # (op index, kind, key)
     for idx, (op, l) in enumerate(zip(case.ops, lines[1:])):
         w = op.split()
-        if w[0] == "window":
+        if w[0] == "window" and w[3] == "exhaust":
+            pass  # budget exhaustion changes WHEN things are delivered, never what or in which order
+        elif w[0] == "window":
             windowed.add(int(w[1]))
             windowed.add(int(w[4]))
             if w[3] == "arrive":
